@@ -92,6 +92,18 @@ def build(spec, tag=''):
     else:
         dag = build_dag(input_node=classes[0], output_node=classes[-1])
     to_key = ps.node_id_maps(spec, classes, tag)
+    # switches declared without a name have generated ids: identify them by their consumer and the parameter they deliver to
+    for n, attrs in dag.graph.nodes(data=True):
+        if n in to_key or not attrs.get('is_switch'):
+            continue
+        for succ in dag.graph.successors(n):
+            ck = to_key.get(succ)
+            pn = dag.graph.edges[n, succ].get('kwarg_name')
+            if ck and ck[0] == 'n':
+                js = [j for j, (p, m) in enumerate(spec['nodes'][ck[1]]['params']) if p == pn and m[0] == 'sw']
+                if js and ['sw', ck[1], js[0]] not in to_key.values():
+                    to_key[n] = ['sw', ck[1], js[0]]
+                    break
 
     def key(nid):
         return to_key.get(nid, ['?', str(nid)])
